@@ -30,7 +30,7 @@ Anything else raises Untranslatable(<named construct>): a broken tie.
 import ast, os, hashlib
 from translate import Untranslatable, find_function
 
-ERRS = {"ValueError", "IndexError", "OverflowError", "TypeError", "AssertionError", "KeyError", "InvalidOperation"}
+ERRS = {"ValueError", "IndexError", "OverflowError", "TypeError", "AssertionError", "KeyError", "InvalidOperation", "ParserError"}
 
 LEAN_TY = {"Nat": "Nat", "Int": "Int", "Bool": "Bool", "OptNat": "Option Nat", "OptInt": "Option Int", "Dec": "PM.Dec",
            "Tok": "PM.Token", "OptTok": "Option PM.Token", "Char": "Char", "Label": "PM.Label", "Ymd": "PM.Ymd",
@@ -39,7 +39,8 @@ LEAN_TY = {"Nat": "Nat", "Int": "Int", "Bool": "Bool", "OptNat": "Option Nat", "
            "NatOptPair": "Nat × Option Nat", "OptPair": "Option (Nat × Nat)", "Unit": "Unit",
            "TokPair": "PM.Token × PM.Token", "NumRet": "Nat × PM.Ymd × PM.Res",
            "StepRet": "List PM.Token × Nat × PM.Res × PM.Ymd × List Nat", "OptFloat": "Option Unit", "IntStr": "Int", "DT": "DT", "Repl": "PPy.Repl", "OptBool": "Option Bool", "Str": "List Char",
-           "ParseRet": "Option (PM.Res × Option (List PM.Token))", "DecimalV": "PPy.DecimalV", "FoldDt": "PPy.FoldDt"}
+           "ParseRet": "Option (PM.Res × Option (List PM.Token))", "OptRes": "Option PM.Res", "OptToks": "Option (List PM.Token)",
+           "ADt": "PPy.ADt", "ResultA": "PM.ResultA", "TzInfos": "PM.TzInfos", "DecimalV": "PPy.DecimalV", "FoldDt": "PPy.FoldDt"}
 PAIR_TYPES = {"NatPair": ("Nat", "Nat"), "NatOptPair": ("Nat", "OptNat"), "TokPair": ("Tok", "Tok")}
 # (methods of `parser` that are themselves translated: PARSER_METHODS below)
 
@@ -133,6 +134,10 @@ class Tr:
             x = self.fresh("v")
             pre.append((x, "PPy.optNat %s" % t, "Nat"))
             return x
+        if want == "Res" and ty == "OptRes" and pre is not None:
+            x = self.fresh("v")
+            pre.append((x, "PPy.optRes %s" % t, "Res"))
+            return x
         if want == "Bool" and ty == "OptBool" and pre is not None:
             x = self.fresh("v")
             pre.append((x, "PPy.optBool %s" % t, "Bool"))
@@ -181,6 +186,10 @@ class Tr:
             parts = [self.E(x, pre) for x in e.elts]
             if self.spec.ret == "YMD" and len(parts) == 3:
                 return "(%s)" % ", ".join(self.coerce(t, ty, "OptNat", pre) for t, ty in parts), "YMD"
+            if len(parts) == 2 and self.spec.ret == "ResultA":
+                (a, ta), (b, tb) = parts
+                if ta != "ADt" or tb != "OptToks": raise Untranslatable("return of (%s, %s)" % (ta, tb))
+                return "({ dt := %s.dt, tz := %s.tz, tokens := %s } : PM.ResultA)" % (a, a, b), "ResultA"
             if len(parts) == 2 and self.spec.ret == "ParseRet":
                 (a, ta), (b, tb) = parts
                 if ta == "None" and tb == "None": return "none", "ParseRet"
@@ -391,6 +400,7 @@ class Tr:
                 if ty == "Ymd": return "%s.vals.length" % t, "Nat"
                 if ty in ("Tok", "Strids", "NatList", "CharList", "Toks"): return "%s.length" % t, "Nat"
                 if ty == "IntStr": return "(PPy.intStrLen %s)" % t, "Nat"
+                if ty in ("Res", "OptRes"): return "(PM.Res.len %s)" % self.coerce(t, ty, "Res", pre), "Nat"
                 raise Untranslatable("len of %s" % ty)
             if n == "int" and len(e.args) == 1:
                 t, ty = self.E(e.args[0], pre)
@@ -430,6 +440,32 @@ class Tr:
             if n == "range" and len(e.args) == 1 and isinstance(e.args[0], ast.Constant) and isinstance(e.args[0].value, int):
                 return "(List.range %d)" % e.args[0].value, "NatList"
             raise Untranslatable("call %s" % n)
+        if isinstance(f, ast.Attribute) and ast.unparse(f) == "self._parse" and len(e.args) == 1 and len(e.keywords) == 1 \
+                and e.keywords[0].arg is None and isinstance(e.keywords[0].value, ast.Name) and e.keywords[0].value.id == "kwargs":
+            t, ty = self.E(e.args[0], pre)
+            if ty != "Str": raise Untranslatable("_parse(%s)" % ty)
+            for kname in ("dayfirst", "yearfirst", "fuzzy", "fuzzy_with_tokens"):        # **kwargs: the keyword parameters of _parse
+                if kname not in self.types: raise Untranslatable("**kwargs: %s is not declared" % kname)
+            self.uses_fuel = True
+            x = self.fresh("pr")
+            pre.append((x, "Gen.P.parse fuel cls info %s dayfirst yearfirst fuzzy fuzzy_with_tokens" % t, "ParseRet"))
+            return x, "ParseRet"
+        if isinstance(f, ast.Attribute) and ast.unparse(f) == "kwargs.get" and len(e.args) == 2 \
+                and isinstance(e.args[0], ast.Constant) and e.args[0].value == "fuzzy_with_tokens" \
+                and isinstance(e.args[1], ast.Constant) and e.args[1].value is False:
+            return "fuzzy_with_tokens", "Bool"
+        if isinstance(f, ast.Attribute) and ast.unparse(f) == "self._build_naive" and len(e.args) == 2:
+            a, ta = self.E(e.args[0], pre); b, tb = self.E(e.args[1], pre)
+            if tb != "DT": raise Untranslatable("_build_naive(_, %s)" % tb)
+            x = self.fresh("nv")
+            pre.append((x, "Gen.P.buildNaive info %s %s" % (self.coerce(a, ta, "Res", pre), b), "DT"))
+            return "({ dt := %s, tz := PM.FinalTz.ofDefault } : PPy.ADt)" % x, "ADt"     # `default.replace(**repl)` keeps default.tzinfo
+        if isinstance(f, ast.Attribute) and ast.unparse(f) == "self._build_tzaware" and len(e.args) == 3:
+            a, ta = self.E(e.args[0], pre); b, tb = self.E(e.args[1], pre); c, tc = self.E(e.args[2], pre)
+            if ta != "ADt" or tc != "TzInfos": raise Untranslatable("_build_tzaware(%s, _, %s)" % (ta, tc))
+            x = self.fresh("aw")
+            pre.append((x, "PPy.buildTzawareStandIn tznames %s %s %s" % (c, a, self.coerce(b, tb, "Res", pre)), "ADt"))   # named stand-in (hand model)
+            return x, "ADt"
         if isinstance(f, ast.Attribute) and ast.unparse(f) == "self._result" and not e.args and not e.keywords:
             return "({} : PM.Res)", "Res"
         if isinstance(f, ast.Attribute) and ast.unparse(f) == "_timelex.split" and len(e.args) == 1:
@@ -459,6 +495,9 @@ class Tr:
                 return "(PM.isDigitTok cls %s)" % recv, "Bool"
             if rt == "Tok" and f.attr == "lower" and not e.args:
                 return "(PM.lower %s)" % recv, "Tok"
+            if rt == "ADt" and f.attr == "replace" and not e.args and len(e.keywords) == 1 and e.keywords[0].arg == "tzinfo" \
+                    and isinstance(e.keywords[0].value, ast.Constant) and e.keywords[0].value.value is None:
+                return "({ %s with tz := PM.FinalTz.none } : PPy.ADt)" % recv, "ADt"
             if rt == "DT" and f.attr == "replace" and not e.args and len(e.keywords) == 1 and e.keywords[0].arg is None:
                 d, td = self.E(e.keywords[0].value, pre)
                 if td != "Repl": raise Untranslatable("replace(**%s)" % td)
@@ -704,7 +743,7 @@ class Tr:
             if tl in ("Nat", "Int", "Tok", "Dec"): return (not pos), ("none", "None")
             if tl == "None": return pos, ("none", "None")
             if tl == "Label": return "(%s %s PM.Label.none)" % (l, "=" if pos else "≠"), ("none", "None")
-            if tl in ("OptNat", "OptInt", "OptTok", "OptFloat", "OptBool"): return "(%s %s none)" % (l, "=" if pos else "≠"), ("none", "None")
+            if tl in ("OptNat", "OptInt", "OptTok", "OptFloat", "OptBool", "OptRes", "OptToks"): return "(%s %s none)" % (l, "=" if pos else "≠"), ("none", "None")
             raise Untranslatable("is None on %s" % tl)
         if isinstance(op, (ast.In, ast.NotIn)):
             neg = isinstance(op, ast.NotIn)
@@ -958,6 +997,8 @@ class Tr:
             t, ty = self.E(s.value, pre)
             if ty == "Static": raise Untranslatable("return of a static value")
             if ty == "StaticBool": ty = "Bool"
+            if ty == "ADt" and self.spec.ret == "ResultA":
+                t, ty = "({ dt := %s.dt, tz := %s.tz, tokens := none } : PM.ResultA)" % (t, t), "ResultA"
             t = self.coerce(t, ty, self.spec.ret, pre)
             return self.wrap(pre, ".ok %s" % t)
         if isinstance(s, ast.While):
@@ -1005,18 +1046,25 @@ class Tr:
                 and isinstance(v.args[1], ast.Name) and v.args[1].id == h.name):
             raise Untranslatable("except Exception: handler is not six.raise_from(E(...), e)")
         err = v.args[0].func.id
+        only = None if h.type.id == "Exception" else h.type.id
         if s.finalbody or self.has(s.body, ast.Return): raise Untranslatable("try/except Exception shape")
         live = self.reads(s.orelse + rest) | set(live_out)
         vs = [x for x in self.assigned(s.body) if x in live]
         body = self.B(s.body, lambda: ".ok %s" % self.ret_text(vs), live)
         tmp = self.fresh("j") if vs else "_"
         after = self.B(s.orelse + rest, k, live_out)
-        return "(match (%s) with\n| .error _ => .error .%s\n| .ok %s =>\n%s%s)" % (
-            body, err, tmp, self.unpack(vs, tmp) if vs else "", after)
+        arm = "| .error _ => .error .%s" % err if only is None else \
+            "| .error e_ => if e_ = .%s then .error .%s else .error e_" % (only, err)
+        return "(match (%s) with\n%s\n| .ok %s =>\n%s%s)" % (
+            body, arm, tmp, self.unpack(vs, tmp) if vs else "", after)
 
     def try_(self, s, rest, k, live_out):
         """try: return <expr with one D[key]>  except KeyError: S"""
         if len(s.handlers) == 1 and isinstance(s.handlers[0].type, ast.Name) and s.handlers[0].type.id == "Exception":
+            return self.try_exception(s, rest, k, live_out)
+        if len(s.handlers) == 1 and isinstance(s.handlers[0].type, ast.Name) and s.handlers[0].type.id == "ValueError" \
+                and s.handlers[0].name and any(isinstance(n, ast.Call) and ast.unparse(n.func) == "six.raise_from"
+                                               for n in ast.walk(s.handlers[0])):
             return self.try_exception(s, rest, k, live_out)
         if len(s.handlers) == 1 and isinstance(s.handlers[0].type, ast.Tuple) and not s.orelse and not s.finalbody \
                 and all(isinstance(x, ast.Name) and x.id in ERRS for x in s.handlers[0].type.elts) \
@@ -1096,6 +1144,10 @@ class Tr:
                     out += self.bind_name(n, t, ty, pre)
                 return self.wrap(pre, out + nxt())
             t, ty = self.E(value, pre)
+            if ty == "ParseRet" and len(names) == 2:
+                out = self.bind_name(names[0], "(%s.map (·.1))" % t, "OptRes", pre)
+                out += self.bind_name(names[1], "(%s.bind (·.2))" % t, "OptToks", pre)
+                return self.wrap(pre, out + nxt())
             if ty == "YMD" and len(names) == 3:
                 out = ""
                 for i2, n in enumerate(names):
@@ -1285,6 +1337,15 @@ class Tr:
             if not (n == "info" and sp.self_type == "Parser"):
                 params.append("(%s : %s)" % (self.lname(n), lty(declared[n])))
         stmts = fn.body
+        if sp.part == "from-_parse-call":
+            idx = [k2 for k2, st in enumerate(fn.body) if isinstance(st, ast.Assign) and isinstance(st.value, ast.Call)
+                   and ast.unparse(st.value.func) == "self._parse"]
+            if len(idx) != 1: raise Untranslatable("%s: exactly one top-level `… = self._parse(…)` is expected" % sp.qualname)
+            stmts = fn.body[idx[0]:]
+            for n, t in sp.params:
+                if t != "Skip" and n not in self.types:
+                    self.types[n] = t
+                    params.append("(%s : %s)" % (self.lname(n), lty(t)))
         if sp.part == "while-body":
             loops = [n for n in ast.walk(fn) if isinstance(n, ast.While)]
             if len(loops) != 1 or loops[0].orelse: raise Untranslatable("%s: exactly one while loop is expected" % sp.qualname)
@@ -1424,6 +1485,11 @@ PARSER_SPECS = [
                                    ("fuzzy_with_tokens", "Bool")], "ParseRet", self_type="Parser", ctx=[CLS],
         locals_={"dayfirst": "Bool", "yearfirst": "Bool", "skipped_idxs": "NatList"},
         loop=("Gen.P.parseLoop", ["l", "i", "len_l", "res", "ymd", "skipped_idxs", "fuzzy"], ["l", "i", "res", "ymd", "skipped_idxs"])),
+    # `parser.parse` from the `_parse` call to the return (`default` given; **kwargs = the keyword parameters of `_parse`)
+    PFn("parser.parse", "parseTail", [("timestr", "Str"), ("default", "DT"), ("ignoretz", "Bool"), ("tzinfos", "TzInfos"),
+                                      ("dayfirst", "OptBool"), ("yearfirst", "OptBool"), ("fuzzy", "Bool"),
+                                      ("fuzzy_with_tokens", "Bool")], "ResultA", self_type="Parser",
+        ctx=[CLS, ("tznames", "List PM.Token")], part="from-_parse-call"),
 ]
 
 
